@@ -26,7 +26,11 @@ int main(int argc, char **argv) {
     std::string obl = w.str("description");
     if (obl.find("lies in the [before,after] range") != std::string::npos) {
         // coverage clause only: every character index lies in the [before,after] range of at least one slot
+        const bool inner_only = obl.find("between claimed characters") != std::string::npos || obl.find("a character between claimed") != std::string::npos;
+        int fc = -1, lc = -1;
+        { int kk = 0; for (int q = 0; q < n; ++q, ++kk) { long long b = w.arr("w_before", kk), a = w.arr("w_after", kk); if (b < 0 || b >= M) b = 0; if (a < 0 || a >= M) a = 0; for (int c = (int)b; c <= (int)a; ++c) { if (fc < 0 || c < fc) fc = c; if (c > lc) lc = c; } } }
         for (int c = 0; c < M && n > 0; ++c) {
+            if (inner_only && !(fc >= 0 && c >= fc && c <= lc)) continue;
             bool in_some = false;
             for (Slot *s = seg.first(); s; s = s->next()) if (s->before() <= c && c <= s->after()) in_some = true;
             if (!in_some) { printf("character %d is in no slot's [before,after] range\n", c); bad = 1; }
